@@ -1018,7 +1018,12 @@ func (p *Program) opaqueAxioms(ops map[string]bool) []*Term {
 				bound = append(bound, b)
 			}
 			app := App(info.symbol, sortOf(info.retTyp), bound...)
-			info.axiom = Forall(bound, Eq(app, Subst(info.body, m)), []*Term{app})
+			if info.pf.Sealed && app.Sort == SBool {
+				b := Subst(info.body, m)
+				info.axiom = Forall(bound, And(Implies(app, b), Implies(b, app)), []*Term{app})
+			} else {
+				info.axiom = Forall(bound, Eq(app, Subst(info.body, m)), []*Term{app})
+			}
 		}
 		out = append(out, info.axiom)
 	}
